@@ -6,6 +6,7 @@ pub mod inst;
 pub mod oracle_frames;
 pub mod oracle_tlv;
 pub mod oracle_view;
+pub mod threads;
 pub mod timed;
 pub mod time;
 pub mod wire;
